@@ -81,12 +81,14 @@ structure Codecs where
 
 /-- a response body: buffered bytes, or a stream given by its Read results -/
 inductive Body
-  | buf (b : Bytes)
+  | buf (b : Bytes)              -- resp.body (SetBody, SetBodyString, AppendBody, Write, BodyWriter): bodyRaw = nil
+  | raw (b : Bytes)              -- resp.bodyRaw (SetBodyRaw): bodyBytes() PREFERS it over resp.body
   | stream (reads : List Bytes)
   deriving DecidableEq, Repr
 
 def Body.bytes : Body → Bytes
   | .buf b => b
+  | .raw b => b
   | .stream r => r.flatten
 
 structure Resp where
@@ -106,6 +108,11 @@ def compressBody (c : Codecs) (k : Kind) (level : Int) (r : Resp) : Resp :=
     | .stream reads =>
       { r with clen := -1, body := .stream [c.encStream k level reads], ce := k.name, vary := addVary r.vary }
     | .buf b =>
+      if b.length < Gen.minCompressLen then r
+      else { r with body := .buf (c.enc k level b), ce := k.name, vary := addVary r.vary }
+    | .raw b =>
+      -- bodyBytes := resp.bodyBytes() (= bodyRaw); the compressed buffer becomes resp.body AND resp.bodyRaw = nil,
+      -- so that every accessor (Body, bodyBytes, Write) yields the compressed bytes afterwards
       if b.length < Gen.minCompressLen then r
       else { r with body := .buf (c.enc k level b), ce := k.name, vary := addVary r.vary }
 
